@@ -102,6 +102,9 @@ type partition struct {
 	shardID              models.ShardID
 	currentNodeID        models.NodeID
 	mutex                sync.Mutex
+	// replicaMutex serializes the follower side of replication(check next index + append, reset index),
+	// the handlers of an abandoned stream and its successor can serve the same partition concurrently.
+	replicaMutex sync.Mutex
 }
 
 // NewPartition creates a writeTask ahead log partition(db+shard+family time+leader).
@@ -143,6 +146,9 @@ func (p *partition) ReplicaLog(replicaIdx int64, msg []byte) (int64, error) {
 		// nothing appended, must not return an index which the leader could take as an ack(0 is a valid index)
 		return -1, constants.ErrPartitionClosed
 	}
+	p.replicaMutex.Lock()
+	defer p.replicaMutex.Unlock()
+
 	appendIdx := p.log.Queue().AppendedSeq() + 1
 	if replicaIdx != appendIdx {
 		return appendIdx, nil
@@ -163,6 +169,9 @@ func (p *partition) ReplicaAckIndex() int64 {
 
 // ResetReplicaIndex resets replica index.
 func (p *partition) ResetReplicaIndex(idx int64) {
+	p.replicaMutex.Lock()
+	defer p.replicaMutex.Unlock()
+
 	p.log.SetAppendedSeq(idx - 1)
 }
 
